@@ -644,6 +644,26 @@ class _Run:
             if names == {"Some", "None"}:
                 m = {"Some": True, "None": False}
                 return self.bool_like(st, ("is_some", x), [(m.get(variants.get(val)), b) for val, b in targets], otherwise, variants, m)
+            if tx == "op" and payload(x)[0] == "cmp" and len(kids(x)) == 2 and names == {"Less", "Equal", "Greater"}:
+                # match a.cmp(&b) { Less => .., Equal => .., Greater => .. }: each arm is the comparison it stands for
+                a_, b_ = kids(x)
+                as_atom = {"Less": (sym.op("lt", a_, b_), True), "Greater": (sym.op("gt", a_, b_), True), "Equal": (sym.op("eq", a_, b_), True)}
+                outs = []
+                covered = []
+                for val, b in targets:
+                    nm_ = variants.get(val)
+                    covered.append(nm_)
+                    outs.append((as_atom[nm_], b))
+                rest = [nm_ for nm_ in ("Less", "Equal", "Greater") if nm_ not in covered]
+                if len(rest) == 1:
+                    outs.append((as_atom[rest[0]], otherwise))
+                elif rest == ["Less", "Equal"] or rest == ["Equal", "Less"]:
+                    outs.append(((sym.op("gt", a_, b_), False), otherwise))
+                elif set(rest) == {"Equal", "Greater"}:
+                    outs.append(((sym.op("lt", a_, b_), False), otherwise))
+                elif set(rest) == {"Less", "Greater"}:
+                    outs.append(((sym.op("eq", a_, b_), False), otherwise))
+                return outs
             # general enum
             atom = sym.op("discr", x)
             known = st.memo.get(atom)
@@ -842,6 +862,9 @@ class _Run:
         if trait in ("std::cmp::PartialOrd", "std::cmp::PartialEq") and nm in CMP:
             # comparisons are operator nodes whatever the operand type (Integer's own ordering is C19's subject)
             return self.binop(nm, a0, args[1])
+        if trait == "std::cmp::Ord" and nm == "cmp" and len(args) == 2 and self.fn.crate != "margined_common":
+            # three-way comparison, likewise (a `match a.cmp(&b)` is read as the comparisons it stands for)
+            return sym.op("cmp", a0, args[1])
         if target_fn is None:
             # ---- library semantics (trusted table) ----
             if name in TRANSPARENT:
@@ -881,6 +904,8 @@ class _Run:
                     return sym.op("u." + nm, *args)
                 if nm == "zero":
                     return sym.intc(0, U128)
+                if nm == "one":
+                    return sym.intc(1, U128)
                 if nm in ("new",):
                     return a0 if tag(a0) != "int" else sym.intc(int(payload(a0)[0]), U128)
                 if nm == "is_zero":
